@@ -204,8 +204,10 @@ func (g *Gen) Setup() map[string]string {
 		names := Enums[e].Names
 		sel := g.R.IntN(len(names))
 		reg := DimReg{Enum: enum, Name: NamePool[e][g.R.IntN(3)], Default: sel}
-		if g.R.IntN(2) == 0 { // through the environment: the builder default is another value
-			reg.Default = (sel + 1 + g.R.IntN(len(names)-1)) % len(names)
+		other := (sel + 1 + g.R.IntN(len(names)-1)) % len(names)
+		switch route := g.R.IntN(10); {
+		case route < 4: // through the environment: the builder default is another value
+			reg.Default = other
 			varName := reg.Name
 			switch g.R.IntN(3) {
 			case 0:
@@ -220,6 +222,16 @@ func (g *Gen) Setup() map[string]string {
 				if v, ok := Enums[e].Parse(env[varName]); ok {
 					sel = v
 				}
+			}
+		case route < 6: // through the flag (set after WithDimension, as flag.Parse would)
+			reg.Default = other
+			fv := Spell(g.R, names[sel])
+			if g.OOD && g.R.IntN(4) == 0 {
+				fv = []string{"", "nope", names[sel] + "x"}[g.R.IntN(3)]
+			}
+			reg.Flag = &fv
+			if g.R.IntN(3) == 0 { // the environment names yet another value: the flag wins
+				env[strings.ToUpper(reg.Name)] = names[other]
 			}
 		}
 		g.Sel[enum] = sel
